@@ -145,26 +145,43 @@ func verifOnce(key string, f func() string) string { return f() }
 
 func verifCover(tag string) { verifRS.Covers = append(verifRS.Covers, tag) }
 
-// verifPollChan returns an interrupt channel that is ready at the poll the
-// replay vector says (natively: the function is placed in a buffered channel
-// by the replay driver at the recorded poll; see verifPollHook).
+// verifPollChan returns an interrupt channel. Symbolically the engine makes
+// every poll of it a choice (ready at most once, within the first limit
+// polls). Natively the channel always holds a function that counts the polls,
+// re-arms itself, and calls fn at the poll the replay vector says: the poll
+// decisions are the remaining entries of the vector (all symbolic inputs of a
+// harness must be drawn before the run that polls).
 func verifPollChan(fn func(), limit int) chan func() {
 	ch := make(chan func(), 1)
-	verifPoll.ch = ch
-	verifPoll.fn = fn
-	verifPoll.limit = limit
+	k := 0
+	for i := verifRS.pos; i < len(verifRS.Vector); i++ {
+		if verifRS.Vector[i] != 0 {
+			k = i - verifRS.pos + 1
+			break
+		}
+	}
 	verifPoll.n = 0
 	verifPoll.fired = false
+	var f func()
+	f = func() {
+		verifPoll.n++
+		if verifPoll.n == k {
+			verifPoll.fired = true
+			fn()
+			return
+		}
+		ch <- f
+	}
+	ch <- f
 	return ch
 }
 
 var verifPoll struct {
-	ch    chan func()
-	fn    func()
-	limit int
 	n     int
 	fired bool
 }
+
+func verifPollFired() bool { return verifPoll.fired }
 
 func verifPollCount() int { return verifPoll.n }
 func verifSteps() int64   { return 0 }
